@@ -129,5 +129,25 @@ func TestC07(t *testing.T) {
 	rec := ev.New("C07", "exploration")
 	rec.Rule = "writer side (1/3 of the cases): the C06 generator restricted to lc+lp <= 4; the emitted stream is decoded by the reference decoder (and liblzma when the header dictionary size is one liblzma accepts), header properties == configuration, header dictionary >= max distance, size field / end marker exactly as configured. Reader side (2/3): streams from the specification-driven generator (arbitrary legal operation lists, all three termination modes, any lc/lp/pb incl. lc+lp > 4, header dictionary fields 0/1/4095/4096..., empty content), liblzma (alone encoder and LZMA1EXT with known size, marker on/off) and the corpus (xz-utils, LZMA SDK samples) x ReaderConfig.DictCap variants; the library must return the constructed bytes and clean EOF; non-trivial: writer = non-empty with a match; reader = a match/rep class or a non-default termination mode; distinct = hash of case / stream"
 	rec.Assumptions = []string{"lc+lp > 4 streams are judged by the reference implementation and construction only (liblzma refuses them)", "a disagreement between reference decoder, liblzma and constructed plaintext is inconclusive, never reported"}
+	// volume, judged by the OTHER implementations: a deviation from the format
+	// that encoder and decoder of the library share (a normalisation skipped at
+	// one exact value of the range, say) survives every round trip of the
+	// library and shows only to a foreign decoder, once in millions of
+	// operations. One long input per shard, rich in matches at distances >= 128
+	// (their low bits are coded with fixed probabilities), written by the
+	// classic writer and decoded by the reference decoder and liblzma.
+	enumerate(t, rec, checkC07, func(try func(caseC07) bool) {
+		n := 12 << 20
+		if ev.Thorough() {
+			n = 96 << 20
+		}
+		w := caseC06{Cfg: gen.Cfg{DefProps: true, DictCap: 65536, EOSMarker: true}, Mode: "marker", ByteSink: true, Part: gen.Partition{Kind: "cuts", Lens: []int{1 << 20, 3 << 20}},
+			Data: gen.Recipe{{Kind: "mix", Len: n, K: 40, Dist: 65536, Seed: 8800 + uint64(rec.Shard) + 1000*uint64(rec.Seed)}}}
+		rec.Class("volume_case_foreign_decoders")
+		try(caseC07{Side: "writer", W: w})
+	})
+	if t.Failed() {
+		return
+	}
 	drive(t, rec, drawC07, checkC07)
 }
